@@ -1747,3 +1747,158 @@ def value_obligations(timeout_ms=10000):
     for i_, ((kind, text), (st_, line)) in enumerate(sorted(seen.items())):
         add('%s#%d' % (kind, i_), kind, st_, text, line)
     return obs
+
+
+# ------------------------------------- a * max(...), -max(...), +max(...)
+# _minmax.__mul__(a) (a a number or a 1x1 matrix), __neg__, __pos__:
+#   a * max(f_0, f_1, ...) = max(a f_0, a f_1, ...)  for a >= 0,
+#                          = min(a f_0, a f_1, ...)  for a <  0   (and dually
+# for min);  -max(f_k) = min(-f_k);  +max(f_k) = max(+f_k) (copies).
+# The argument list has symbolic length; the comprehension over it is the
+# element-wise image.
+class MapSeq:
+    abs_object = True
+    abs_star = True
+
+    def __init__(self, src, elt, k):
+        self.src, self.elt, self.k = src, elt, k
+
+
+def _vseq_comp(self, ex, st, n, g, fid):
+    if g.ifs or not isinstance(g.target, ast.Name):
+        raise Unsupported('comprehension over the arguments')
+    k = z3.Int('k!')
+    el = self.elem(k)
+    nf = next(ex.fid)
+    st.frames[nf] = {g.target.id: el}
+    st.parent[nf] = fid
+    try:
+        v = ex.ev(n.elt, st, nf)
+    finally:
+        st.frames.pop(nf, None)
+    if not isinstance(v, Vec):
+        raise Unsupported('comprehension does not build functions')
+    return MapSeq(self, v, k)
+
+
+VSeq.abs_comp = _vseq_comp
+_vec_unop0 = Vec.abs_unop
+
+
+def _vec_unop(self, ex, st, op, n):
+    if isinstance(op, ast.USub):
+        f = self.val
+        return Vec(self.kind, self.ln, lambda i: -f(i))
+    return _vec_unop0(self, ex, st, op, n)
+
+
+Vec.abs_unop = _vec_unop
+
+
+class MMBuilt2:
+    abs_object = True
+
+    def __init__(self, name, seq):
+        self.name, self.seq = name, seq
+
+
+def mmul_obligations(timeout_ms=10000):
+    tree, src = driver.load_module('modeling.py')
+    obs, sink = [], []
+
+    def add(fn, oid, kind, status, text, line=0, detail=None):
+        obs.append({'id': 'modeling.py:%s:%s:%s' % (fn, kind, oid),
+                    'kind': kind, 'status': status, 'text': text,
+                    'line': line, 'model': None, 'detail': detail,
+                    'by': ['z3'] if status == 'proved' else []})
+    saved = {k_: L.ext.get(k_) for k_ in (
+        'cvxopt.modeling._minmax', 'cvxopt.modeling._ismatrix',
+        'builtins.type')}
+    type0 = saved['builtins.type']
+
+    def mk(ex_, st, args, kwargs, n):
+        c, nm = const_of(args[0]) if args else (False, None)
+        if c and nm in ('max', 'min') and len(args) == 2 and isinstance(
+                args[1], MapSeq):
+            return MMBuilt2(nm, args[1])
+        raise Unsupported('_minmax(%r)' % (args,))
+
+    def ismat(ex_, st, args, kwargs, n):
+        return False            # the operand of this scenario is a float
+    a = z3.Real('a')
+    i, kk = z3.Int('i'), z3.Int('kk')
+    ex = None
+    try:
+        for meth, factor in (('__mul__', a),
+                             ('__neg__', z3.RealVal(-1)),
+                             ('__pos__', z3.RealVal(1))):
+            ex = core.Executor(tree, 'cvxopt.modeling', L, {'unroll': 8})
+            lg = z3.Int('len(f)')
+            nf = z3.Int('number of functions')
+            ismax = z3.Bool('is max')
+            tl = z3.Function('len of function', IS, IS)
+            g = z3.Function('value of function', IS, IS, RS)
+            fl = VSeq('_flist', nf, tl, g, True, z3.Function('fl_', IS, IS),
+                      z3.Function('sig_', IS, RS))
+            fl.inv_fn = lambda k, lg_: []
+
+            def setup(ex_, st, fid, f_, fl=fl, ismax=ismax, lg=lg, nf=nf):
+                install()
+                L.ext['cvxopt.modeling._minmax'] = mk
+                L.ext['cvxopt.modeling._ismatrix'] = ismat
+                fr = st.frames[fid]
+                fr['self'] = MMArg(lg, fl, ismax)
+                fr['other'] = R(a)
+                st.pc += [lg >= 1, nf >= 1]
+                st.ghost.update({'lg': lg, 'frame_check': False})
+            fname = '_minmax.%s' % meth
+            try:
+                ex.find_function(fname)
+                outs = ex.run_function(fname, setup)
+            except (Unsupported, KeyError) as e:
+                add(fname, 'supported', 'minmax-scale', 'undecided',
+                    '%s is inside the supported subset' % fname,
+                    detail=repr(e))
+                continue
+            for o in outs:
+                st = o.st
+                if o.kind != 'return' or not isinstance(o.val, MMBuilt2):
+                    sink.append((ex, fname, 'minmax-scale', list(st.pc),
+                                 z3.BoolVal(False), '%s returns a new max / '
+                                 'min object' % fname, 0))
+                    continue
+                v = o.val
+                ms = v.seq
+                elt = ms.elt
+                kq = ms.k
+                val_at = lambda k_, i_: z3.substitute(elt.val(i_), (kq, k_))
+                sink.append((ex, fname, 'minmax-scale', list(st.pc) + [
+                    kk >= 0, kk < nf, i >= 0], z3.And(
+                        z3.BoolVal(ms.src is fl),
+                        z3.BoolVal(v.name == 'max') == z3.If(
+                            factor >= 0, ismax, z3.Not(ismax)),
+                        val_at(kk, i) == factor * g(kk, i),
+                        z3.substitute(elt.ln, (kq, kk)) == tl(kk)),
+                    '%s: the result is the max (min) of the scaled '
+                    'arguments -- every argument, scaled by the factor, same '
+                    'lengths -- and max and min change places exactly for a '
+                    'negative factor' % fname, 0))
+    finally:
+        for k_, v_ in saved.items():
+            if v_ is None:
+                L.ext.pop(k_, None)
+            else:
+                L.ext[k_] = v_
+    seen = {}
+    rank = {'proved': 0, 'undecided': 1, 'refuted': 2}
+    for ex_, fn, kind, pc, goal, text, line in sink:
+        r = ex_.check(pc, [z3.Not(goal)], timeout=timeout_ms)
+        st_ = 'proved' if r == z3.unsat else ('refuted' if r == z3.sat
+                                              else 'undecided')
+        key = (fn, kind, text)
+        if key not in seen or rank[st_] > rank[seen[key][0]]:
+            seen[key] = (st_, line)
+    for i_, ((fn, kind, text), (st_, line)) in enumerate(sorted(
+            seen.items())):
+        add(fn, '%s#%d' % (kind, i_), kind, st_, text, line)
+    return obs
